@@ -45,7 +45,7 @@ type Fault struct {
 }
 
 type WL struct {
-	Mode    string  `json:"mode"` // bfs | pipe
+	Mode    string  `json:"mode"` // bfs | pipe | seq (seq: Driver = helper, Cut = outbound, Depth = skip, Workers = limit)
 	Nodes   int     `json:"nodes"`
 	Edges   []Edge  `json:"edges"`
 	Root    int     `json:"root"`
@@ -77,8 +77,11 @@ func genGraph(r *rand.Rand, w *WL) {
 
 func gen(r *rand.Rand) WL {
 	var w WL
-	if r.IntN(5) == 0 {
+	switch r.IntN(10) {
+	case 0, 1:
 		return genPipe(r)
+	case 2:
+		return genSeq(r)
 	}
 	w.Mode = "bfs"
 	genGraph(r, &w)
@@ -573,8 +576,11 @@ func execPipe(t *testing.T, w WL, cfg simrt.Config) simh.Outcome {
 }
 
 func exec(t *testing.T, w WL, cfg simrt.Config) simh.Outcome {
-	if w.Mode == "pipe" {
+	switch w.Mode {
+	case "pipe":
 		return execPipe(t, w, cfg)
+	case "seq":
+		return execSeq(t, w, cfg)
 	}
 	return execBFS(t, w, cfg)
 }
@@ -597,10 +603,18 @@ func shrink(w WL) []WL {
 		}
 		return res
 	}
-	if w.Workers > 1 {
+	if w.Workers > 1 && w.Mode != "seq" {
 		c := w
 		c.Workers--
 		res = append(res, c)
+	}
+	if w.Mode == "seq" {
+		for i := range w.Edges {
+			c := w
+			c.Edges = append(append([]Edge{}, w.Edges[:i]...), w.Edges[i+1:]...)
+			res = append(res, c)
+		}
+		return res
 	}
 	for i := range w.Edges {
 		c := w
